@@ -198,6 +198,10 @@ def run_step(label, fn, env, sched_mod):
                 {'del_keyerror': is_del_keyerror(e), 'tb': traceback.format_exc(limit=-4)[-700:]}]
 
 
+class NoSession(object):
+    def __init__(self, steps): self.steps = steps
+
+
 def make_runner(prog, E, tid, shared, sched_mod):
     def run(w):
         env = Env(E, tid, shared, w)
@@ -205,11 +209,17 @@ def make_runner(prog, E, tid, shared, sched_mod):
         first = True
         for sess in prog:
             try:
-                with po.db_session:
-                    for label, fn in sess:
+                if isinstance(sess, NoSession):          # steps that open their own db_sessions
+                    for label, fn in sess.steps:
                         if not first: w.op_yield()
                         first = False
                         out.append(run_step(label, fn, env, sched_mod))
+                else:
+                    with po.db_session:
+                        for label, fn in sess:
+                            if not first: w.op_yield()
+                            first = False
+                            out.append(run_step(label, fn, env, sched_mod))
                 out.append(['session-exit', 'ok', None])
             except sched_mod.ScheduleAbort:
                 raise
@@ -441,6 +451,25 @@ def st_hybrid(x):
                 sorted(po.select(p.shout for p in P if p.owner == 0 and p.age > x))]
     return ('hybrid:older(%r)' % (x,), f)
 
+def st_nested_getattr(a, v):
+    def f(env):
+        D = env.E.Dept
+        return sorted(po.select(d.id for d in D if po.exists(p for p in d.staff if getattr(p, a) == v and p.owner == 0)))
+    return ('nested-getattr(%r)==%r' % (a, v), f)
+
+def st_nested_getattr2(a, b, v):
+    def f(env):
+        D = env.E.Dept
+        q = po.select(getattr(d, b) for d in D if d.id < 10 and po.count(p for p in d.staff if getattr(p, a) >= v and p.owner == 0) > 0)
+        return sorted(q, key=repr)
+    return ('getattr(%r) where count(nested getattr(%r)>=%r)' % (b, a, v), f)
+
+def st_nested_slice(n, v):
+    def f(env):
+        D = env.E.Dept
+        return sorted(po.select(d.id for d in D if po.exists(p for p in d.staff if p.name[:n] == v)))
+    return ('nested-name[:%r]==%r' % (n, v), f)
+
 def st_pk(i):
     def f(env):
         P = env.E.Person
@@ -534,12 +563,18 @@ JUDGED_USES = ('seed_attr_load', 'lazy_attr_load', 'obj_load', 'coll_iter', 'col
 UNJUDGED_USES = ('loaded_attr_read', 'coll_count', 'foreign_attr_assign', 'genexpr_param')
 
 
-def use_fn(kind, env, sh):
+FRESH_CAPABLE = ('seed_attr_load', 'lazy_attr_load', 'obj_load', 'coll_iter', 'coll_len', 'coll_is_empty', 'kwargs_filter',
+                 'create_with_ref')
+
+
+def use_fn(kind, env, sh, fresh=False):
+    """One use of thread A's objects by thread B.  The `fresh` variants are the first thing B's db_session does
+    (they work on a second set of A's objects so that the two variants do not see each other's traces)."""
     P, T, D = env.E.Person, env.E.Tag, env.E.Dept
-    pA, seed, p2 = sh['p'], sh['seed'], sh['p2']
+    pA, seed = (sh['p2'], sh['seed2']) if fresh else (sh['p'], sh['seed'])
     if kind == 'seed_attr_load': return lambda: seed.title
     if kind == 'lazy_attr_load': return lambda: pA.bio
-    if kind == 'obj_load': return lambda: p2.load()
+    if kind == 'obj_load': return lambda: (sh['p3'] if fresh else sh['p2']).load()
     if kind == 'coll_iter': return lambda: list(pA.tags)
     if kind == 'coll_len': return lambda: len(seed.staff)
     if kind == 'coll_contains': return lambda: T[1] in pA.tags
@@ -564,7 +599,7 @@ def st_x_publish(ids):
             p, p2, p3 = P[ids[0]], P[ids[1]], P[ids[2]]
             seed = p.dept
             snap = [p.name, p.age, p2.name, p2.age, seed is not None and 'title' in {a.name for a in seed._vals_}]
-            sh.update(p=p, p2=p2, p3=p3, seed=seed)
+            sh.update(p=p, p2=p2, p3=p3, seed=seed, seed2=p2.dept)
         finally:
             sh['published'] = True
         env.w.wait_for(lambda: sh.get('used') or sh.get('b_failed'), 'B-used')
@@ -587,9 +622,15 @@ def st_x_use(kinds):
             env.w.wait_for(lambda: sh.get('published'), 'A-published')
             if 'p' not in sh: return ['A failed']
             for k in kinds:
-                try: v = use_fn(k, env, sh)(); res.append([k, 'ok', canon(v)])
-                except Exception as e: res.append([k, 'exc', type(e).__name__, isinstance(e, core.TransactionError)])
-            po.rollback()
+                kind, _, mode = k.partition(':')
+                # every use runs in a db_session of its own: 'fresh' = the use is the very first thing that session
+                # does, 'warm' = the session has already worked with the database
+                with po.db_session:
+                    try:
+                        if mode != 'fresh': env.E.Person[100 * env.tid + 1]
+                        v = use_fn(kind, env, sh, mode == 'fresh')(); res.append([k, 'ok', canon(v)])
+                    except Exception as e: res.append([k, 'exc', type(e).__name__, isinstance(e, core.TransactionError)])
+                    po.rollback()
         except BaseException:
             sh['b_failed'] = True
             raise
@@ -761,15 +802,35 @@ def sh_mix3(rng, T):
     return progs, {}
 
 
+def sh_nested(rng, T):
+    """A parameter that is baked into the translation sits inside a NESTED generator, and every thread keeps its OWN
+    constant value of it (so a translation that is not invalidated serves one thread the other thread's rows)."""
+    names = ['age', 'id', 'owner']; rng.shuffle(names)
+    vals = rng.sample([35, 2, 0, 21, 5, 48], 4)
+    progs = []
+    for t in range(T):
+        a = names[t % 3]
+        steps = []
+        for i, v in enumerate(vals):
+            steps.append(st_nested_getattr(a, v))
+            if i % 2 == 0: steps.append(st_nested_getattr2(a, ['title', 'id'][(t + i // 2) % 2], v))
+        steps.append(st_nested_slice(1 + t % 2, ['b', 'bo'][t % 2]))
+        steps.append(st_getattr(['name', 'age', 'id'][t % 3]))
+        steps.append(st_slice(1 + t))
+        rng.shuffle(steps)
+        progs.append(_sessions(rng, steps))
+    return progs, {'names': names, 'vals': vals}
+
+
 def sh_cross(rng, T):
     # judged uses first (each needs a load through the foreign object: nothing must have been cached in it by an
     # earlier unjudged use such as count()), then a random subset of the unjudged ones
-    kinds = list(JUDGED_USES); rng.shuffle(kinds)
-    extra = rng.sample(UNJUDGED_USES, rng.randint(0, len(UNJUDGED_USES)))
+    kinds = [k + ':warm' for k in JUDGED_USES] + [k + ':fresh' for k in FRESH_CAPABLE]; rng.shuffle(kinds)
+    extra = [k + ':warm' for k in rng.sample(UNJUDGED_USES, rng.randint(0, len(UNJUDGED_USES)))]
     kinds += extra
     ids = rng.sample([1, 2, 4, 5, 7, 8], 3)      # persons with a dept
     a = [[st_slice(1)], [st_x_publish(ids), st_getattr('name'), st_rollback()], [st_slice(2)]]
-    b = [[st_getattr('age')], [st_slice(2), st_x_use(kinds), st_slice(1)], [st_getattr('name')]]
+    b = [[st_getattr('age')], [st_slice(2)], NoSession([st_x_use(kinds)]), [st_slice(1), st_getattr('name')]]
     progs = [a, b]
     for t in range(2, T):
         progs.append(_sessions(rng, [st_slice(1 + i % 2) for i in range(4)] + [st_getattr('age')]))
@@ -778,7 +839,8 @@ def sh_cross(rng, T):
 
 SHAPES = [('slice', sh_slice), ('getattr', sh_getattr), ('types', sh_types), ('strings', sh_strings),
           ('rawsql', sh_rawsql), ('firstuse', sh_firstuse), ('lambdas', sh_lambdas), ('chains', sh_chains),
-          ('aggr', sh_aggr), ('hybrid', sh_hybrid), ('writes', sh_writes), ('mix3', sh_mix3), ('cross', sh_cross)]
+          ('aggr', sh_aggr), ('hybrid', sh_hybrid), ('writes', sh_writes), ('mix3', sh_mix3), ('nested', sh_nested),
+          ('cross', sh_cross)]
 
 FOCUS_GROUPS = [
     ('translator', ('_get_translator', '__init__', '_process_lambda', '_order_by', '_apply_kwargs')),
@@ -946,9 +1008,10 @@ def judge_cross(ctx, wit0, s):
     if uses is None:
         ctx.count('xthread.no_uses'); return
     for u in uses:
-        kind, oc = u[0], u[1]
+        kind, _, mode = u[0].partition(':')
+        oc = u[1]
         if kind in JUDGED_USES:
-            ctx.count('xthread.judged')
+            ctx.count('xthread.judged'); ctx.count('xthread.judged.' + (mode or 'warm'))
             if oc == 'exc':
                 ctx.count('xthread.raised.' + u[2])
             elif kind == 'lazy_attr_load':
